@@ -691,3 +691,31 @@ free piece:
 +--------+-------+-------------+-----------------------------------+
 ```
 */
+
+// verification hook: layout-probe
+#[cfg(abyssiniandb_verif)]
+pub(crate) fn verif_key_slot(key_len: usize, value_offset: u64, next_offset: u64) -> (u32, u32) {
+    use super::super::dbmap::DbBytes;
+    let piece_mgr = PieceMgr::new(&REC_SIZE_FREE_OFFSET, &REC_SIZE_ARY);
+    let piece = KeyPiece::<DbBytes>::with_key_value_next(
+        DbBytes::from_bytes(&vec![0u8; key_len]),
+        ValuePieceOffset::new(value_offset),
+        KeyPieceOffset::new(next_offset),
+    );
+    let (encorded_piece_len, piece_len, _key_len) = piece.encoded_piece_size();
+    let est = encorded_piece_len + piece_len;
+    (est, piece_mgr.roundup(KeyPieceSize::new(est)).as_value())
+}
+#[cfg(abyssiniandb_verif)]
+pub(crate) fn verif_key_roundup(size: u32) -> u32 {
+    let piece_mgr = PieceMgr::new(&REC_SIZE_FREE_OFFSET, &REC_SIZE_ARY);
+    piece_mgr.roundup(KeyPieceSize::new(size)).as_value()
+}
+#[cfg(abyssiniandb_verif)]
+pub(crate) fn verif_key_free_list_offset(size: u32) -> (u64, bool) {
+    let piece_mgr = PieceMgr::new(&REC_SIZE_FREE_OFFSET, &REC_SIZE_ARY);
+    (
+        piece_mgr.free_piece_list_offset_of_header(KeyPieceSize::new(size)),
+        piece_mgr.is_large_piece_size(KeyPieceSize::new(size)),
+    )
+}
